@@ -584,3 +584,191 @@ Lemma q_no_help_refuted :
   q_busy q_stalled_state 1 = true /\ q_solo_nohelp 1000 q_stalled_state 1 = None /\
   q_solo 13 q_stalled_state 1 = Some 9.
 Proof. vm_compute. repeat split. Qed.
+
+(* ------------------------------------------------------------------ linearization (Herlihy-Wing) *)
+(* The linearization of a run is read off its trace: Push v at its link CAS, Pop -> v at
+   its head CAS, Pop -> nil at the LAST own step that saw the queue empty, i.e. the QECand
+   step that is directly followed (in that thread) by the QERetEmpty return.  *)
+Inductive q_sop := SPush (v : Z) | SPopSome (v : Z) | SPopNone.
+
+Definition q_seq_apply (a : list Z) (o : q_sop) : option (list Z) :=
+  match o with
+  | SPush v => Some (a ++ [v])
+  | SPopSome v => match a with x :: r => if Z.eqb x v then Some r else None | [] => None end
+  | SPopNone => match a with [] => Some [] | _ => None end
+  end.
+Fixpoint q_seq_run (a : list Z) (l : list q_sop) : option (list Z) :=
+  match l with
+  | [] => Some a
+  | o :: r => match q_seq_apply a o with Some a' => q_seq_run a' r | None => None end
+  end.
+
+Fixpoint q_next_of (j : nat) (tr : list (nat * q_event)) : option q_event :=
+  match tr with
+  | [] => None
+  | (i, e) :: r => if Nat.eqb i j then Some e else q_next_of j r
+  end.
+
+Definition q_is_ret_empty (o : option q_event) : bool :=
+  match o with Some QERetEmpty => true | _ => false end.
+
+(* linearization point attached to an event, given the next event of the same thread *)
+Definition q_lp_of (e : q_event) (next : option q_event) : option q_sop :=
+  match e with
+  | QELinPush v => Some (SPush v)
+  | QELinRetPop v => Some (SPopSome v)
+  | QECand => if q_is_ret_empty next then Some SPopNone else None
+  | _ => None
+  end.
+
+Fixpoint q_lin (tr : list (nat * q_event)) : list (nat * q_sop) :=
+  match tr with
+  | [] => []
+  | (j, e) :: r =>
+      match q_lp_of e (q_next_of j r) with
+      | Some o => (j, o) :: q_lin r
+      | None => q_lin r
+      end
+  end.
+
+(* (1) the linearization is a legal sequential FIFO history *)
+Lemma q_lin_legal tr : forall a b,
+  q_apply_trace a tr = Some b -> q_seq_run a (map snd (q_lin tr)) = Some b.
+Proof.
+  induction tr as [|[j e] r IH]; intros a b H; cbn [q_apply_trace q_lin] in *.
+  - exact H.
+  - destruct (q_apply_ev a e) as [a'|] eqn:E; [|discriminate].
+    specialize (IH a' b H).
+    destruct e as [o| | |v| |v| | |]; cbn [q_lp_of q_apply_ev] in *.
+    + inversion E; subst; exact IH.
+    + inversion E; subst; exact IH.
+    + (* Cand *) destruct a; [|discriminate]. inversion E; subst.
+      destruct (q_is_ret_empty (q_next_of j r)); [|exact IH].
+      cbn [map snd q_seq_run q_seq_apply]. exact IH.
+    + (* LinPush *) inversion E; subst. cbn [map snd q_seq_run q_seq_apply]. exact IH.
+    + inversion E; subst; exact IH.
+    + (* LinRetPop *) cbn [map snd q_seq_run q_seq_apply].
+      destruct a as [|x a0]; [discriminate|]. destruct (Z.eqb x v); [|discriminate].
+      inversion E; subst. exact IH.
+    + inversion E; subst; exact IH.
+    + discriminate.
+    + inversion E; subst; exact IH.
+Qed.
+
+(* (2) per thread: every linearization point lies between the invocation and the return of
+   the operation it belongs to, carries that operation's result, and there is exactly one
+   per completed operation; operations are invoked in program order *)
+Inductive q_tst := TIdle | TPendPush (v : Z) | TLinPush | TPendPop | TLinPopNone.
+
+Definition q_op_eqb (a b : q_op) : bool :=
+  match a, b with QPush v, QPush v' => Z.eqb v v' | QPop, QPop => true | _, _ => false end.
+
+Fixpoint q_tcheck (st : q_tst) (todo : list q_op) (evs : list q_event) : bool :=
+  match evs with
+  | [] => true
+  | e :: rest =>
+      let lp := q_lp_of e (hd_error rest) in
+      match st, e, lp with
+      | TIdle, QEInv o, None =>
+          match todo with
+          | o' :: t' => q_op_eqb o o' &&
+                        q_tcheck (match o with QPush v => TPendPush v | QPop => TPendPop end) t' rest
+          | [] => false
+          end
+      | TIdle, QENone, None => match todo with [] => q_tcheck TIdle [] rest | _ => false end
+      | TPendPush v, QEInt, None => q_tcheck st todo rest
+      | TPendPush v, QELinPush _, Some (SPush v') => Z.eqb v v' && q_tcheck TLinPush todo rest
+      | TLinPush, QERetPush, None => q_tcheck TIdle todo rest
+      | TPendPop, QEInt, None => q_tcheck st todo rest
+      | TPendPop, QECand, None => q_tcheck st todo rest
+      | TPendPop, QECand, Some SPopNone => q_tcheck TLinPopNone todo rest
+      | TLinPopNone, QERetEmpty, None => q_tcheck TIdle todo rest
+      | TPendPop, QELinRetPop _, Some (SPopSome _) => q_tcheck TIdle todo rest
+      | _, _, _ => false
+      end
+  end.
+
+Definition q_tst_of (a : q_aut) (evs : list q_event) : q_tst :=
+  match a with
+  | QAIdle => TIdle
+  | QAPush v => TPendPush v
+  | QALinked => TLinPush
+  | QAPop c => if c && q_is_ret_empty (hd_error evs) then TLinPopNone else TPendPop
+  end.
+
+Lemma q_aut_tcheck evs : forall a todo x,
+  q_aut_run a todo evs = Some x -> q_tcheck (q_tst_of a evs) todo evs = true.
+Proof.
+  induction evs as [|e rest IH]; intros a todo x H; [reflexivity|].
+  cbn [q_aut_run] in H.
+  destruct (q_aut_step a todo e) as [[a' todo']|] eqn:E; [|discriminate].
+  specialize (IH a' todo' x H).
+  destruct a as [|v| |c]; destruct e; cbn [q_aut_step] in E; try discriminate;
+    try (destruct c; discriminate).
+  - (* Idle, Inv *)
+    destruct todo as [|o' t']; [discriminate|].
+    destruct o as [v|]; destruct o' as [v'|]; try discriminate.
+    + destruct (Z.eqb v v') eqn:Ev; [|discriminate]. inversion E; subst.
+      cbn [q_tst_of q_tcheck q_lp_of q_op_eqb]. rewrite Ev. exact IH.
+    + inversion E; subst. cbn [q_tst_of q_tcheck q_lp_of q_op_eqb andb] in *. exact IH.
+  - (* Idle, None *)
+    destruct todo; [|discriminate]. inversion E; subst. cbn [q_tst_of q_tcheck q_lp_of] in *. exact IH.
+  - (* Push, Int *) inversion E; subst. cbn [q_tst_of q_tcheck q_lp_of] in *. exact IH.
+  - (* Push, LinPush *)
+    destruct (Z.eqb v v0) eqn:Ev; [|discriminate]. inversion E; subst.
+    cbn [q_tst_of q_tcheck q_lp_of] in *. rewrite Ev. exact IH.
+  - (* Linked, RetPush *) inversion E; subst. cbn [q_tst_of q_tcheck q_lp_of] in *. exact IH.
+  - (* Pop, Int *)
+    destruct c; inversion E; subst; cbn [q_tst_of q_is_ret_empty hd_error andb q_tcheck q_lp_of] in *; exact IH.
+  - (* Pop, Cand *)
+    destruct c; inversion E; subst; cbn [q_tst_of q_is_ret_empty hd_error andb q_tcheck q_lp_of] in *;
+      destruct (q_is_ret_empty (hd_error rest)); exact IH.
+  - (* Pop, LinRetPop *)
+    destruct c; inversion E; subst; cbn [q_tst_of q_is_ret_empty hd_error andb q_tcheck q_lp_of] in *; exact IH.
+  - (* Pop true, RetEmpty *)
+    destruct c; [|discriminate]. inversion E; subst.
+    cbn [q_tst_of q_is_ret_empty hd_error andb q_tcheck q_lp_of] in *. exact IH.
+Qed.
+
+(* (3) the thread-j part of the global linearization is the linearization of thread j's
+   own events: the look-ahead "next event of thread j" is the head of its projection *)
+Lemma q_next_of_proj j tr : q_next_of j tr = hd_error (q_proj j tr).
+Proof.
+  unfold q_proj. induction tr as [|[i e] r IH]; [reflexivity|].
+  cbn [q_next_of filter fst]. destruct (Nat.eqb i j); [reflexivity|exact IH].
+Qed.
+
+Fixpoint q_lin_thread (evs : list q_event) : list q_sop :=
+  match evs with
+  | [] => []
+  | e :: rest => match q_lp_of e (hd_error rest) with
+                 | Some o => o :: q_lin_thread rest
+                 | None => q_lin_thread rest
+                 end
+  end.
+
+Lemma q_lin_proj j tr :
+  map snd (filter (fun p => Nat.eqb (fst p) j) (q_lin tr)) = q_lin_thread (q_proj j tr).
+Proof.
+  induction tr as [|[i e] r IH]; [reflexivity|].
+  cbn [q_lin]. unfold q_proj in *. cbn [filter fst].
+  destruct (Nat.eqb i j) eqn:Eij.
+  - apply Nat.eqb_eq in Eij. subst i. cbn [map snd q_lin_thread].
+    rewrite q_next_of_proj. unfold q_proj.
+    destruct (q_lp_of e _); cbn [filter fst map snd]; rewrite ?Nat.eqb_refl; cbn [map snd]; rewrite IH; reflexivity.
+  - destruct (q_lp_of e (q_next_of i r)); cbn [filter fst]; rewrite ?Eij; exact IH.
+Qed.
+
+Theorem q_linearizable pre progs sched :
+  let tr := q_trace (q_init pre progs) sched in
+  q_seq_run pre (map snd (q_lin tr)) = Some (q_abs (q_final (q_init pre progs) sched)) /\
+  forall j,
+    q_tcheck TIdle (nth j progs []) (q_proj j tr) = true /\
+    map snd (filter (fun p => Nat.eqb (fst p) j) (q_lin tr)) = q_lin_thread (q_proj j tr).
+Proof.
+  cbn zeta. split.
+  - apply q_lin_legal. apply q_refines_fifo.
+  - intros j. split; [|apply q_lin_proj].
+    pose proof (q_thread_protocol pre progs sched j) as H.
+    apply q_aut_tcheck in H. exact H.
+Qed.
